@@ -337,6 +337,22 @@ def _phase(exc):
   return "other"
 
 
+def _drain(loop, conns, unit):
+  """Wake the loop up while something is readable/writable.  Every wake-up must consume input, flush output or
+  close something, so the number of wake-ups is bounded by the pending bytes; more than that is a livelock
+  (the loop is woken again and again by a socket it neither reads to the end nor closes).  -> False on livelock."""
+  pending = sum(len(c.sock.inbox) for c in conns.values())
+  loop.budget = (loop.budget[0], _limit(pending))
+  bound = 24 + 6 * len(conns) + 3 * sum((len(c.sock.inbox) + unit - 1) // unit for c in conns.values())
+  n = 0
+  while loop.alive and (loop.readable() or (hasattr(loop, "writable") and loop.writable())):
+    loop.step()
+    n += 1
+    if n > bound:
+      return False
+  return True
+
+
 def _chunks(stream, cuts):
   cuts = sorted(set(int(c) for c in cuts if 0 < int(c) < len(stream)))
   b = [0] + cuts + [len(stream)]
@@ -415,32 +431,40 @@ def run_case(case):
       pos += len(ch)
     rounds = max(len(c.chunks) for c in conns.values())
     sib_pending_at_bad = False
+    unit = 2048 if side == "ctl" else 8192
+    live = True
     for r in range(rounds):
-      pending = 0
       for role in roles:
         c = conns[role]
         if r < len(c.chunks) and not c.sock.closed:
           c.sock.feed(c.chunks[r])
-          pending += len(c.chunks[r])
       if bad_round is not None and r == bad_round:
         sib_pending_at_bad = True          # siblings always have a later chunk and/or the probe outstanding
-      loop.budget = (B, _limit(sum(len(c.sock.inbox) for c in conns.values())))
-      loop.drain()
-      if not loop.alive:
+      live = _drain(loop, conns, unit)
+      if not loop.alive or not live:
         break
-    if loop.alive and case.get("eof"):
+    if loop.alive and live and case.get("eof"):
       v.sock.eof = True
-      loop.budget = (B, _limit(0))
-      loop.drain()
-    if loop.alive:
+      live = _drain(loop, conns, unit)
+    if loop.alive and live:
       for role in roles:
         if role != "v" and not conns[role].sock.closed:
           conns[role].sock.feed(probe)
-      loop.budget = (B, _limit(len(probe) * 2))
-      loop.drain()
+      live = _drain(loop, conns, unit)
+    if not live:
+      cause, pos = _cause(vstream, v.tap, _victim_head(side, v), direction)
+      out.fail("livelock", "the %s loop is woken up again and again by a socket it neither drains nor closes (readable now: %r; "
+               "victim at stream offset %d, %s)" % (side, [getattr(getattr(x, "sock", getattr(x, "socket", None)), "name", "?")
+                                                         for x in loop.readable()], pos, cause), side=side, cause=cause)
+      return out
 
     _judge(out, case, side, direction, loop, conns, roles, vstream, intact_expect, first_bad, sib_expect, probe)
     corrupted = first_bad is not None
+    if corrupted:
+      out.label("hdr:" + R.header_class(vstream, first_bad, direction))
+      out.label("segmented" if len(v.chunks) > 1 else "unsegmented")
+      if case.get("eof"):
+        out.label("eof")
     after = corrupted and any(s > first_bad for s, _ in intact)
     out.nontrivial = bool(corrupted and after and (sib_pending_at_bad or bad_round is None))
     if corrupted and not after:
